@@ -22,4 +22,18 @@ pub open spec fn py_slice(len: int, lo: Option<int>, hi: Option<int>) -> (int, i
     (clo, if chi >= clo { chi } else { clo })
 }
 
+
+// the integer an interpreter value denotes when used as an index (None for non-integers and non-numbers)
+pub open spec fn obj_int(o: Obj) -> Option<int> { match o { Obj::Num(NNum::Int(n)) => Some(n@), _ => None } }
+pub open spec fn obj_bound_ok(x: Option<&Obj>) -> bool {
+    x is None || (obj_int(*x->Some_0) is Some && isize::MIN <= obj_int(*x->Some_0)->Some_0 <= isize::MAX)
+}
+pub open spec fn obj_bound(x: Option<&Obj>) -> Option<int> { match x { None => None, Some(o) => obj_int(*o) } }
+// Rust never allocates more than isize::MAX bytes, so every Vec of non-zero-sized elements has at most isize::MAX elements
+pub open spec fn seq_len_fits_isize(s: Seq) -> bool {
+    match s {
+        Seq::List(x) => x@.len() <= isize::MAX, Seq::Vector(x) => x@.len() <= isize::MAX, Seq::Bytes(x) => x@.len() <= isize::MAX,
+        _ => true,
+    }
+}
 } // verus!
